@@ -46,6 +46,8 @@ CUTTABLE = {
     ("eko.kernels.singlet", "r_vec", 0),
     ("eko.kernels.singlet", "r_vec", 1),
     ("eko.kernels.singlet", "r_vec", 2),
+    ("eko.interpolation", "InterpolatorDispatcher.__init__", 0),
+    ("eko.interpolation", "InterpolatorDispatcher.__init__", 1),
 }
 ACTIVE_CUTS: dict = {}
 
@@ -62,6 +64,11 @@ class Poison:
         raise Unsupported(f"loop cut: variable {self._n!r} is assigned in the loop but not described by the loop contract")
 
     __add__ = __radd__ = __mul__ = __rmul__ = __sub__ = __rsub__ = __truediv__ = __rtruediv__ = __getitem__ = __call__ = __bool__ = __matmul__ = __rmatmul__ = _bad
+
+
+def _vclen(x):
+    f = getattr(x, "__vclen__", None)
+    return f() if f is not None else len(x)
 
 
 def _vc_loop(key):
@@ -105,7 +112,7 @@ class LoopSpec:
 PRELUDE = (
     "from pyvc.rt import _vcQ, _vcdiv, _vcpow, imag_unit as _vcI, vfloat as float, vcomplex as complex, "
     "vint as int, vround as round\n"
-    "from pyvc.hook import _vc_loop\n"
+    "from pyvc.hook import _vc_loop, _vclen\n"
 )
 
 
@@ -190,6 +197,13 @@ else:
         body = [copy.deepcopy(b) for b in node.body]
         iff.orelse = [pre_for, entry_call, havoc_assign, tgt_assign] + body + [preserved_call, exit_assign]
         return [ast.copy_location(assign, node), ast.copy_location(iff, node)]
+
+    def visit_Call(self, node):
+        self.generic_visit(node)
+        # len(x) -> _vclen(x): objects with a symbolic length answer through __vclen__ (Python's len() insists on an int)
+        if isinstance(node.func, ast.Name) and node.func.id == "len" and len(node.args) == 1 and not node.keywords:
+            return ast.copy_location(ast.Call(ast.Name("_vclen", ast.Load()), node.args, []), node)
+        return node
 
     def visit_Constant(self, node):
         v = node.value
